@@ -147,29 +147,40 @@ fn case<R: KhRing>(ctx: &mut Ctx, rng: &mut Rng) where for<'x> &'x R: EucRingOps
 // separate process (`vh-old`, built by the driver from the same tree). It shares alg.rs and the homology
 // layer with the engine under test but none of the tangle / cobordism code, and it reaches 11 crossings.
 
-struct OldEngine { child: std::process::Child, stdin: std::process::ChildStdin, stdout: std::io::BufReader<std::process::ChildStdout> }
+struct OldEngine { child: std::process::Child, stdin: std::process::ChildStdin, lines: std::sync::mpsc::Receiver<String> }
 
-fn old_engine() -> Option<&'static std::sync::Mutex<OldEngine>> {
-    static E: OnceLock<Option<std::sync::Mutex<OldEngine>>> = OnceLock::new();
-    E.get_or_init(|| {
-        let bin = std::env::var("VERIF_OLD").ok()?;
-        let mut child = std::process::Command::new(bin).stdin(std::process::Stdio::piped()).stdout(std::process::Stdio::piped()).stderr(std::process::Stdio::null()).spawn().ok()?;
-        let stdin = child.stdin.take()?;
-        let stdout = std::io::BufReader::new(child.stdout.take()?);
-        Some(std::sync::Mutex::new(OldEngine { child, stdin, stdout }))
-    }).as_ref()
+fn spawn_old() -> Option<OldEngine> {
+    use std::io::BufRead;
+    let bin = std::env::var("VERIF_OLD").ok()?;
+    let mut child = std::process::Command::new(bin).stdin(std::process::Stdio::piped()).stdout(std::process::Stdio::piped()).stderr(std::process::Stdio::null()).spawn().ok()?;
+    let stdin = child.stdin.take()?;
+    let stdout = std::io::BufReader::new(child.stdout.take()?);
+    let (tx, rx) = std::sync::mpsc::channel();
+    std::thread::spawn(move || { for l in stdout.lines() { let Ok(l) = l else { break }; if tx.send(l).is_err() { break } } });
+    Some(OldEngine { child, stdin, lines: rx })
 }
 
+fn old_engine() -> &'static std::sync::Mutex<Option<OldEngine>> {
+    static E: OnceLock<std::sync::Mutex<Option<OldEngine>>> = OnceLock::new();
+    E.get_or_init(|| std::sync::Mutex::new(spawn_old()))
+}
+
+/// seconds the old engine may take for one request; an overrun is inconclusive (the process is killed
+/// and restarted for the next request), never a verdict
+const OLD_TIMEOUT_S: u64 = 90;
+
 fn ask_old(pd: &PD, h: i64, t: i64, reduced: bool, ring: &str) -> Result<Total, String> {
-    use std::io::{BufRead, Write};
-    let e = old_engine().ok_or("old engine unavailable")?;
-    let mut g = e.lock().map_err(|_| "poisoned")?;
+    use std::io::Write;
+    let mut g = old_engine().lock().map_err(|_| "poisoned")?;
+    if g.is_none() { *g = spawn_old() }
+    let Some(e) = g.as_mut() else { return Err("old engine unavailable".into()) };
     let req = json!({"pd": pd.x, "neg": pd.neg, "h": h, "t": t, "reduced": reduced, "ring": ring});
-    writeln!(g.stdin, "{}", req).map_err(|e| e.to_string())?;
-    g.stdin.flush().map_err(|e| e.to_string())?;
-    let mut line = String::new();
-    g.stdout.read_line(&mut line).map_err(|e| e.to_string())?;
-    let _ = &g.child;
+    let sent = writeln!(e.stdin, "{}", req).and_then(|_| e.stdin.flush());
+    if let Err(err) = sent { let _ = e.child.kill(); let _ = e.child.wait(); *g = None; return Err(format!("old engine: write failed: {err}")) }
+    let line = match crate::ctx::external(|| e.lines.recv_timeout(std::time::Duration::from_secs(OLD_TIMEOUT_S))) {
+        Ok(l) => l,
+        Err(err) => { let _ = e.child.kill(); let _ = e.child.wait(); *g = None; return Err(format!("old engine: no answer ({err})")) }
+    };
     let v: serde_json::Value = serde_json::from_str(&line).map_err(|e| format!("{e}: {line}"))?;
     if let Some(err) = v.get("error") { return Err(format!("old engine: {err}")) }
     let mut out = Total::new();
@@ -190,7 +201,7 @@ fn old_case<R: KhRing>(ctx: &mut Ctx, rng: &mut Rng, ring: &str) where for<'x> &
     if pd.validate().is_err() || pd.n_free() > 0 { ctx.inconclusive("generator_invalid_diagram"); return }
     let (h, t) = if rng.chance(1, 2) { (0, 0) } else { *rng.choose(&HT) };
     let reduced = t == 0 && rng.chance(1, 3);
-    let exp = match ask_old(&pd, h, t, reduced, ring) { Ok(x) => x, Err(e) => { ctx.inconclusive("old_engine_unavailable_or_failed"); ctx.note(e); return } };
+    let exp = match ask_old(&pd, h, t, reduced, ring) { Ok(x) => x, Err(e) => { ctx.inconclusive(if e.contains("no answer") { "old_engine_timeout" } else { "old_engine_unavailable_or_failed" }); ctx.note(format!("{e} on {origin} h={h} t={t} reduced={reduced} ring={ring}")); return } };
     let l = to_link(&pd);
     let conf = json!({"ring": ring, "origin": origin, "h": h, "t": t, "reduced": reduced});
     match guarded(move || kh_total::<R>(&l, h, t, reduced, &BuildCfg::default_cfg())) {
@@ -209,10 +220,10 @@ fn old_case<R: KhRing>(ctx: &mut Ctx, rng: &mut Rng, ring: &str) where for<'x> &
 pub fn run(ctx: &mut Ctx) {
     let n = ctx.by_tier(3_000u64, 60_000);
     let m = ctx.by_tier(300u64, 12_000);
-    ctx.random_cases("old/Z", m, |c, r| old_case::<i64>(c, r, "Z"));
-    ctx.random_cases("old/Q", m / 2, |c, r| old_case::<Ratio<i64>>(c, r, "Q"));
-    ctx.random_cases("old/F2", m / 2, |c, r| old_case::<FF<2>>(c, r, "F2"));
-    ctx.random_cases("old/F3", m / 2, |c, r| old_case::<FF<3>>(c, r, "F3"));
+    ctx.random_cases_share("old/Z", m, 0.10, |c, r| old_case::<i64>(c, r, "Z"));
+    ctx.random_cases_share("old/Q", m / 2, 0.05, |c, r| old_case::<Ratio<i64>>(c, r, "Q"));
+    ctx.random_cases_share("old/F2", m / 2, 0.05, |c, r| old_case::<FF<2>>(c, r, "F2"));
+    ctx.random_cases_share("old/F3", m / 2, 0.05, |c, r| old_case::<FF<3>>(c, r, "F3"));
     ctx.random_cases("i64", n * 2, |c, r| case::<i64>(c, r));
     ctx.random_cases("BigInt", n, |c, r| case::<BigInt>(c, r));
     ctx.random_cases("Ratio<i64>", n, |c, r| case::<Ratio<i64>>(c, r));
